@@ -42,7 +42,7 @@ func init() { register(c09{}) }
 func (c09) ID() string    { return "C09" }
 func (c09) Level() string { return "exploration" }
 func (c09) Rule() string {
-	return "one case = (configurations A,B with an observable debug probe; start state NewMiddleware(A) or zero value; operation sequence of length 1..8 over SetDebug(true/false), Reconfigure(nil/A/B/invalid)); state observed after every step; distinct = distinct plan hash; non-trivial = the sequence contains at least one SetDebug and at least one Reconfigure"
+	return "one case = (configurations A,B with an observable debug probe; start state NewMiddleware(A) or zero value; operation sequence of length 1..8 over SetDebug(true/false), Reconfigure(nil/A/B/invalid)); plus occasional Reconfigure(Config()) and request bursts; state observed after every step through a plan-chosen kind of failing preflight (method / private-network / header list); the middleware AS THE HISTORY LEFT IT is compared with a fresh one in the opposite debug mode (second clause of the property); distinct = distinct plan hash; non-trivial = the sequence contains at least one SetDebug and at least one Reconfigure"
 }
 func (c09) Budget(tier string) (int, time.Duration) {
 	if tier == "thorough" {
